@@ -35,9 +35,16 @@ def r1_with_values(ctx):
              (((7, 8),), {}, {"0": (7, 8), "5": "old5"}, {"a": 1}),
              ((), {"a": 9}, {"0": "old0", "5": "old5"}, {"a": 9})]
     for args, kwargs, want_ps, want_kw in cases:
-        paths = Interp(repo).explore(fi, args={"self": me, "args": args, "kwargs": kwargs})
+        paths = Interp(repo, inline={"cascade.low.func.pyd_replace"}).explore(fi, args={"self": me, "args": args, "kwargs": kwargs})
         ctx.evals(len(paths))
         for p in paths:
+            dumped = [e for e in p.effects if e.kind == "call" and e.data.get("method") in ("model_dump", "dict", "model_dump_json", "json")
+                      and any(isinstance(r_, Obj) and r_.cls.endswith(("TaskBuilder", "TaskInstance")) for r_ in (e.data.get("recv"), e.data.get("recv_value")))]
+            if dumped:
+                ctx.violation("C19.R1", fi.qual, loc(fi, dumped[0].node), "bound values are carried over as they are",
+                              f"with_values{args} {kwargs} re-creates the task from its serialised form ({dumped[0].data.get('method')}()): values bound earlier go through a "
+                              f"conversion (models and dataclasses become dicts, named tuples become tuples) and the job no longer carries the values that were given")
+                continue
             if p.exit[0] != "return":
                 ctx.violation("C19.R1", fi.qual, loc(fi), "with_values completes",
                               f"with_values{args} {kwargs} does not return: {p.exit[0]} {vkey(p.exit[1])[:100]}")
